@@ -6,7 +6,7 @@ from ..harness import hexs
 from ..mir import ENUMS
 from . import skel
 from . import numlib as nl
-from .c01_parts import spec_apply_scheme
+from .c01_parts import spec_apply_scheme, spec_native_apply
 
 TAIL_PROBES = [
     ("(define (loop n acc) (if (= n 0) acc (loop (- n 1) (+ acc 1))))\n(loop 200000 0)", "OK I 200000"),
@@ -190,3 +190,4 @@ def run(chk):
     chk.step("eval_tail_expression", spec_eval_tail, chk, depth)
     chk.step("apply_scheme_procedure tail position", spec_apply_scheme, chk, "", ("order",))
     chk.step("trampoline", spec_trampoline, chk, K)
+    chk.step("apply in tail position", spec_native_apply, chk, True)
